@@ -215,9 +215,21 @@ def run_property(prop, tier, seed, replay=None):
         sys.stdout.flush()
         lines_out.append(s)
 
-    evidence = {"property_id": pid, "tier": tier, "seed": seed, "level": "proof", "coverage": {}, "assumptions": [],
+    level = "proof"
+    try:
+        man = json.load(open(os.path.join(VERIF, "MANIFEST.json")))
+        for c in man["checks"]:
+            if c["property_id"] == pid:
+                level = c["level_claimed"]["category"]
+    except Exception:
+        pass
+    evidence = {"property_id": pid, "tier": tier, "seed": seed, "level": level, "coverage": {}, "assumptions": [],
                 "wall_s": 0.0, "violations": 0}
     cov = evidence["coverage"]
+    if level != "proof":
+        cov["explanation"] = ("no Lean theorem is registered for this property yet: the run compares the Lean model with the "
+                              "implementation on the property's observable (correspondence) and evaluates a reference oracle on the "
+                              "implementation's output; see level_claimed in MANIFEST.json and DESIGN.md §12.4")
     cov["trusted_base"] = TRUSTED_BASE + list(getattr(prop, "extra_trusted", []))
     cov["checker_cmd"] = "cd /verif/lean && lake build Chiritori.Props.%s && lake env lean /verif/.build/Audit_%s.lean  (#print axioms ⊆ {propext, Classical.choice, Quot.sound}); thorough: lake env leanchecker Chiritori.Props.%s" % (pid, pid, pid)
     evidence["assumptions"] = list(getattr(prop, "assumptions", []))
